@@ -25,7 +25,7 @@ theorem columnRanges_sub {thr mcw : Int} {lines : List Line} {ρ : Int × Int}
   (List.mem_filter.mp h).1
 
 theorem columnRanges_pairwise (thr mcw : Int) (lines : List Line) :
-    (columnRanges thr mcw lines).Pairwise (fun a b => a.2 + max thr 2 ≤ b.1) :=
+    (columnRanges thr mcw lines).Pairwise (fun a b => a.2 + max thr gapMin ≤ b.1) :=
   List.Pairwise.sublist List.filter_sublist (gapIntervals_pairwise thr (pixels_sorted lines))
 
 /-! ### make_column_range_columns never fails -/
@@ -108,8 +108,11 @@ theorem not_overlapping_apart {a b : Box} (ha : a.l < a.r) (hb : b.l < b.r) (h :
   have wab : ¬ (a.width = 0 ∧ b.width = 0) := fun h => wa h.1
   have wba : ¬ (b.width = 0 ∧ a.width = 0) := fun h => wa h.2
   simp only [isHOverlapping, if_neg wa, if_neg wb, if_neg wab, if_neg wba, h1, h2]
-  simp [Box.width]
-  omega
+  -- the one fact about the regenerated threshold that is used: it is not negative
+  have hp := consts_col_overlap_threshold_nonneg.1
+  have m1 : 0 ≤ min a.width b.width := by simp only [Box.width]; omega
+  have m2 : 0 ≤ min b.width a.width := by simp only [Box.width]; omega
+  exact ⟨ratioGt_zero hp m1, ratioGt_zero hp m2⟩
 
 def Sep (a b : Col) : Prop := isHOverlapping a.box b.box = false ∧ isHOverlapping b.box a.box = false
 
@@ -188,6 +191,7 @@ theorem level_pos (g : RegInfo) (thr mcw : Int) (lines : List Line) (hpos : PosW
       have sx := (hit_iff_spanIn thr hx1 (hpos x hx1) (columnRanges_sub hρ)).mp hx2
       have sy := (hit_iff_spanIn thr hy1 (hpos y hy1) (columnRanges_sub hρ')).mp hy2
       unfold spanIn at sx sy
+      have hN := consts_min_gap_ge_two
       omega
     have h2 : (colLines lines (columnRanges thr mcw lines)).Pairwise
         (fun l1 l2 => ∀ x ∈ l1, ∀ y ∈ l2, x.box.r < y.box.l) := by
@@ -242,6 +246,7 @@ theorem level_pos (g : RegInfo) (thr mcw : Int) (lines : List Line) (hpos : PosW
         rw [he2 ρe hρ] at this
         cases this
       unfold spanIn at se
+      have hN := consts_min_gap_ge_two
       rcases gapIntervals_apart thr (pixels_sorted lines) hρe (columnRanges_sub hρ) with h | h | h
       · exact absurd h hne
       · have := (hOverlap_apart (a := e.box) (b := c.box) (by omega)).1; omega
